@@ -9,6 +9,7 @@ mod c13;
 mod world;
 mod hot;
 mod thr;
+mod cb;
 pub mod util;
 
 fn main() {
@@ -25,6 +26,7 @@ fn main() {
         "world" => world::run_case,
         "hot" => hot::run_case,
         "thr" => thr::run_case,
+        "cb" => cb::run_case,
         p => {
             eprintln!("unknown property {}", p);
             std::process::exit(2);
